@@ -105,9 +105,13 @@ pub struct World {
     pub chunk_buf: BTreeMap<(usize, usize, u64), BTreeMap<(u64, String, Vec<u8>, String), (Change, Timestamp)>>,
     /// seq ranges of the partial chunks delivered, in delivery order
     pub chunk_log: BTreeMap<(usize, usize, u64), Vec<(u64, u64)>>,
+    /// everything applied to the shadow of a node, in order
+    pub shadow_log: Vec<Vec<(Vec<Change>, Timestamp)>>,
     /// delivered message ids per node (to count duplicates)
     delivered: Vec<BTreeSet<usize>>,
     suppliers_seen: BTreeMap<(usize, usize, u64), BTreeSet<usize>>,
+    /// an actor the harness itself introduced (C10's marker changesets): not part of the model
+    pub ignore_actor: Option<ActorId>,
 }
 
 pub fn infra(e: SimErr) -> Fail {
@@ -147,6 +151,7 @@ impl World {
             shadows,
             chunk_buf: BTreeMap::new(),
             chunk_log: BTreeMap::new(),
+            shadow_log: vec![vec![]; n],
             models: vec![BTreeMap::new(); n],
             delivered: vec![BTreeSet::new(); n],
             nodes,
@@ -160,11 +165,21 @@ impl World {
             stats: Stats::default(),
             expected_triggers: BTreeSet::new(),
             suppliers_seen: BTreeMap::new(),
+            ignore_actor: None,
         })
     }
 
     pub fn n(&self) -> usize {
         self.nodes.len()
+    }
+
+    /// make `changes` visible in the shadow of `node` (and remember it, so that the visible state at
+    /// any earlier point can be rebuilt: see the crash points of C06)
+    pub fn shadow_apply(&mut self, node: usize, changes: &[Change], ts: Timestamp) {
+        if let Some(sh) = self.shadows.get(node) {
+            let _ = sh.apply(changes, ts);
+        }
+        self.shadow_log[node].push((changes.to_vec(), ts));
     }
 
     pub fn actor(&self, i: usize) -> ActorId {
@@ -201,9 +216,7 @@ impl World {
                 if self.models[dst][&origin].held.contains(&version.0) {
                     // became held through this (complete) changeset
                     if !changes.is_empty() {
-                        if let Some(sh) = self.shadows.get(dst) {
-                            let _ = sh.apply(changes, *ts);
-                        }
+                        self.shadow_apply(dst, changes, *ts);
                     }
                 } else {
                     let b = self.chunk_buf.entry((dst, origin, version.0)).or_default();
@@ -241,9 +254,7 @@ impl World {
         let chunks = self.nodes[node].collect_broadcast(v, Some(last_seq)).await.map_err(|e| Fail::new("announced-to-cluster", e.0))?;
         let ts = chunks.iter().filter_map(|c| c.changeset.ts()).next().unwrap_or_default();
         self.reference.apply(&changes, ts).map_err(infra)?;
-        if let Some(sh) = self.shadows.get(node) {
-            sh.apply(&changes, ts).map_err(infra)?;
-        }
+        self.shadow_apply(node, &changes, ts);
         for c in &changes {
             let key = (c.table.to_string(), c.pk.clone(), c.cid.to_string());
             self.written.entry(key.clone()).or_default().insert(sim::val_repr(&c.val));
@@ -333,7 +344,9 @@ impl World {
                 let mut set = rangemap::RangeInclusiveSet::new();
                 for (a, b) in ranges {
                     let s = *a as u64 % (last + 1);
-                    let e = (s + *b as u64 % 4).min(last);
+                    // mostly short ranges, but also long ones that span several earlier chunks and holes
+                    let len = if *b < 160 { *b as u64 % 4 } else { *b as u64 % (last + 1) };
+                    let e = (s + len).min(last);
                     set.insert(s..=e);
                 }
                 if set.is_empty() {
@@ -438,11 +451,11 @@ impl World {
                 m.undetermined.remove(&v);
                 m.on_applied(v);
                 self.stats.applied_from_buffer += 1;
-                if let (Some(sh), Some(buf)) = (self.shadows.get(node), self.chunk_buf.get(&(node, origin, v))) {
+                if let Some(buf) = self.chunk_buf.get(&(node, origin, v)) {
                     let ts = buf.values().next().map(|x| x.1).unwrap_or_default();
                     let changes: Vec<Change> = buf.values().map(|x| x.0.clone()).collect();
                     if !changes.is_empty() {
-                        let _ = sh.apply(&changes, ts);
+                        self.shadow_apply(node, &changes, ts);
                     }
                 }
             }
@@ -534,7 +547,7 @@ impl World {
             if held {
                 continue;
             }
-            let ok = self.nodes[nd].wait_trigger(actor, v, Duration::from_secs(10)).await;
+            let ok = self.nodes[nd].wait_trigger(actor, v, Duration::from_secs(4)).await;
             ensure!(ok, "covered-version-is-scheduled-for-apply", "node {nd}: v{v} of node {origin} is completely buffered but no apply was scheduled within 10s");
         }
         Ok(())
@@ -575,11 +588,11 @@ impl World {
                 for i in 0..n {
                     let open: Vec<(usize, u64)> = self.models[i].iter().flat_map(|(o, m)| m.undetermined.iter().map(|v| (*o, *v)).collect::<Vec<_>>()).collect();
                     for (o, v) in open {
-                        if let (Some(sh), Some(buf)) = (self.shadows.get(i), self.chunk_buf.get(&(i, o, v))) {
+                        if let Some(buf) = self.chunk_buf.get(&(i, o, v)) {
                             let ts = buf.values().next().map(|x| x.1).unwrap_or_default();
                             let changes: Vec<Change> = buf.values().map(|x| x.0.clone()).collect();
                             if !changes.is_empty() {
-                                let _ = sh.apply(&changes, ts);
+                                self.shadow_apply(i, &changes, ts);
                             }
                         }
                         let m = self.models[i].get_mut(&o).unwrap();
@@ -606,6 +619,9 @@ impl World {
         }
         for a in st.heads.keys() {
             let o = self.actor_idx.get(a);
+            if Some(*a) == self.ignore_actor {
+                continue;
+            }
             ensure!(o.is_some_and(|o| self.models[node].contains_key(o)), "advertises-only-known-actors", "node {node} advertises a head for {a} it never heard of");
         }
         Ok(())
@@ -629,7 +645,18 @@ impl World {
         for origin in self.models[node].keys() {
             let a = self.actor(*origin);
             let (lh, rh) = (live.heads.get(&a), reloaded.heads.get(&a));
-            ensure!(lh == rh, "durable-head", "node {node} about node {origin}: live head {lh:?}, after reload {rh:?}");
+            // A reload may come back with a lower head: a trailing version that was recorded as held
+            // without leaving any data (every change lost the merge) is then simply beyond the head again
+            // and will be asked for once more (C06 words it: "needed, partial or beyond its head").  It
+            // must never come back higher, and nothing above the reloaded head may be listed.
+            let (lhv, rhv) = (lh.map(|v| v.0).unwrap_or(0), rh.map(|v| v.0).unwrap_or(0));
+            ensure!(rhv <= lhv, "durable-head", "node {node} about node {origin}: live head {lh:?}, after reload {rh:?}");
+            if rhv < lhv {
+                let m = &self.models[node][origin];
+                for v in rhv + 1..=lhv {
+                    ensure!(m.held.contains(&v) && !m.partial.contains_key(&v), "durable-head", "node {node} about node {origin}: live head {lhv}, after reload {rhv}, but v{v} is not a version held without stored data");
+                }
+            }
             let norm = |s: &SyncStateV1| {
                 let mut need: Vec<(u64, u64)> = s.need.get(&a).map(|v| v.iter().map(|r| (r.start().0, r.end().0)).collect()).unwrap_or_default();
                 need.sort();
@@ -697,6 +724,109 @@ impl World {
         })
     }
 
+    /// C05 (racing tier): the server answers a need while a delivery commits in the middle of the
+    /// session.  The harness owns the schedule: the answer channel has capacity 1, `pause_after` answers
+    /// are read, then the delivery is performed on the server, then the rest is drained.  Safety
+    /// clauses only: an Empty may only cover a version that is held without live changes before or
+    /// after the interleaved commit; nothing is answered for versions not held at either point.
+    pub async fn check_serve_racing(&mut self, server: usize, origin: usize, need: SyncNeedV1, pause_after: usize, ids: &[usize], info: &mut CaseInfo) -> Result<(), Fail> {
+        let actor = self.actor(origin);
+        let req_versions: Vec<u64> = match &need {
+            SyncNeedV1::Full { versions } => (versions.start().0..=versions.end().0).collect(),
+            SyncNeedV1::Partial { version, .. } => vec![version.0],
+            SyncNeedV1::Empty { .. } => vec![],
+        };
+        // class of a version on the server: 0 = not held, 1 = partial, 2 = held with live rows, 3 = held without
+        async fn classes(w: &World, server: usize, origin: usize, vs: &[u64]) -> Result<BTreeMap<u64, u8>, Fail> {
+            let model = w.models[server].get(&origin).cloned().unwrap_or_default();
+            let mut out = BTreeMap::new();
+            for v in vs {
+                let held = model.held.contains(v) || (server == origin && *v <= model.max);
+                let c = if held {
+                    if w.live_rows(server, origin, *v).await?.is_empty() { 3 } else { 2 }
+                } else if model.partial.contains_key(v) {
+                    1
+                } else {
+                    0
+                };
+                out.insert(*v, c);
+            }
+            Ok(out)
+        }
+        let before = classes(self, server, origin, &req_versions).await?;
+        let (tx_need, rx_need) = tokio::sync::mpsc::channel(8);
+        let (tx, mut rx) = tokio::sync::mpsc::channel::<klukai_types::sync::SyncMessage>(1);
+        tx_need.send(vec![(actor, vec![need.clone()])]).await.map_err(|_| Fail::infra("need channel"))?;
+        drop(tx_need);
+        let pool = self.nodes[server].agent.pool().clone();
+        let bookie = self.nodes[server].bookie.clone();
+        let h = tokio::spawn(async move { verif_hooks::process_sync(pool, bookie, tx, rx_need).await });
+        let mut answers: Vec<ChangeV1> = vec![];
+        let mut closed = false;
+        while answers.len() < pause_after {
+            match rx.recv().await {
+                Some(klukai_types::sync::SyncMessage::V1(klukai_types::sync::SyncMessageV1::Changeset(c))) => answers.push(c),
+                Some(_) => {}
+                None => {
+                    closed = true;
+                    break;
+                }
+            }
+        }
+        // the interleaved commit on the server
+        let mut eff = Effects::default();
+        if !self.pool.is_empty() && !ids.is_empty() {
+            self.deliver_msgs(server, ids, true, &mut eff).await?;
+            let mut e2 = Effects::default();
+            self.apply(server, true, 0, &mut e2).await?;
+        }
+        if !closed {
+            info.class("commit-interleaved-with-an-open-session");
+        }
+        while let Some(m) = rx.recv().await {
+            if let klukai_types::sync::SyncMessage::V1(klukai_types::sync::SyncMessageV1::Changeset(c)) = m {
+                answers.push(c);
+            }
+        }
+        h.await.map_err(|e| Fail::infra(format!("process_sync join: {e}")))?.map_err(|e| Fail::new("sync-server-answers", e.to_string()))?;
+        let after = classes(self, server, origin, &req_versions).await?;
+        let changed = before != after;
+        if changed && !closed {
+            info.class("served-version-changed-class-mid-session");
+            info.nontrivial = true;
+        }
+        for a in &answers {
+            match &a.changeset {
+                Changeset::Empty { versions, .. } => {
+                    for v in versions.start().0..=versions.end().0 {
+                        let (b, c) = (before.get(&v).copied().unwrap_or(0), after.get(&v).copied().unwrap_or(0));
+                        let m = &self.models[server].get(&origin).cloned().unwrap_or_default();
+                        if m.l_conflict(v) || m.undetermined.contains(&v) {
+                            continue;
+                        }
+                        ensure!(
+                            b == 3 || c == 3,
+                            "empty-only-for-held-versions-without-live-changes",
+                            "v{v} of node {origin} declared empty by server {server}, but it was {} before and {} after the commit that interleaved with the session (delivered {:?})",
+                            ["not held", "partially buffered", "held with live changes", "held without live changes"][b as usize],
+                            ["not held", "partially buffered", "held with live changes", "held without live changes"][c as usize],
+                            eff.delivered
+                        );
+                    }
+                }
+                Changeset::Full { version, changes, seqs, .. } => {
+                    for ch in changes {
+                        ensure!(seqs.contains(&ch.seq), "change-inside-changeset-range", "v{}: change seq {} outside {}..={}", version.0, ch.seq.0, seqs.start().0, seqs.end().0);
+                    }
+                    let (b, c) = (before.get(&version.0).copied().unwrap_or(0), after.get(&version.0).copied().unwrap_or(0));
+                    ensure!(b != 0 || c != 0, "silent-about-versions-not-held", "v{} answered though the server held nothing of it before or after the interleaved commit", version.0);
+                }
+                _ => {}
+            }
+        }
+        Ok(())
+    }
+
     /// C05: let `server` answer one need about `origin` through the real process_sync / handle_need and
     /// compare the answer with what the server holds (harness model + the server's own crsql_changes)
     pub async fn check_serve(&mut self, server: usize, origin: usize, need: SyncNeedV1, info: &mut CaseInfo) -> Result<(), Fail> {
@@ -741,7 +871,8 @@ impl World {
             if v == 0 {
                 continue;
             }
-            if model.undetermined.contains(&v) || model.ambiguous(v) {
+            if model.undetermined.contains(&v) || model.ambiguous(v) || model.l_conflict(v) {
+                info.class("version-with-conflicting-last_seq-declarations(skipped)");
                 continue;
             }
             let own = server == origin;
